@@ -341,7 +341,10 @@ def _run(ctx, oracle_only=False, big=None):
             for t in ts:
                 rs = rng.choice([1, 1, 2, 1024])
                 tt = t * rs + rng.randrange(rs)
-                got = aioftp.Server._format_mlsx_time(tt / rs)
+                try:
+                    got = aioftp.Server._format_mlsx_time(tt / rs)
+                except Exception as e:  # noqa
+                    got = "raised %s: %s" % (type(e).__name__, e)
                 want = (EPOCH + datetime.timedelta(seconds=t)).strftime("%Y%m%d%H%M%S")
                 res.cases += 1
                 res.count("mlsx")
